@@ -11,6 +11,8 @@ import ast
 import z3
 from pyvc.kinds import V, STR, INT, BOOL, Ref, Seq, SetK, NONE, VList, VTuple, const, fresh
 from pyvc.contract import Contract, seam_handler
+from pyvc.contract import first_assigned_constant as _fac
+_first_empty_string = _fac('')
 import pyvc.contract as _C
 from contracts.node_getters import by_contract
 from contracts.node_edges import BRIDGE, BRIDGE_OVERRIDES, REGS, re_search
@@ -22,6 +24,7 @@ M = "self.params.objects('main_restrictions')"
 NAME = "self.params['name']"
 SETLESS_FORM = Contract(
     target=f"{NODE}::TestNode.setless_form",
+    aliases={"max_restr": _first_empty_string},
     params={"self": Ref("TestNode")},
     loops={0: {"invariants": [
         f"max_restr == '' or (exists(range(0, _i), lambda j: {M}[j] == max_restr) and {NAME}.startswith(max_restr))",
